@@ -80,7 +80,7 @@ Definition remove_last_if_S (space : option str) (rout : list chunk) : list chun
 
 (* 350-360 *)
 Definition indentblock (p : prefs) (text : str) (level : nat) : str :=
-  if is_nil p.(lineSeparator) then text
+  if forallb (fun c => mem c lit_indent_blank) p.(lineSeparator) then text   (* not sep.strip(' \t'), '' included *)
   else join p.(lineSeparator)
          (map (fun line => repeat_str level p.(indent) ++ line)
               (filter (fun line => negb (is_nil line)) (split p.(lineSeparator) text))).
@@ -144,7 +144,11 @@ Definition app_strip (p : prefs) (it : item) (v : str) (rout : list chunk) : lis
 Definition post (p : prefs) (it : item) (v : str) : list str * list str :=
   let ty := it.(ity) in
   if it.(ialwaysS) && is_sub v lit_calc_ops then ([], [lit_calc_space])                        (* 287 *)
-  else if is_sub v lit_comb then ([p.(selectorCombinatorSpacer)], [p.(selectorCombinatorSpacer)])  (* 289 *)
+  else if is_sub v lit_comb then                                                               (* 289 *)
+    let cs := if ty_is lit_ty_CHAR ty && is_nil p.(selectorCombinatorSpacer)
+              then lit_comb_forced       (* a plain token, not a selector combinator: never glued (fix 4b7d642) *)
+              else p.(selectorCombinatorSpacer) in
+    ([cs], [cs])
   else if eqs lit_funcend v && negb it.(ikeepS) then ([], [lit_funcend_space])                 (* 292 *)
   else if eqs lit_comma v then ([], [p.(listItemSpacer)])                                      (* 295 *)
   else if eqs lit_colon v then ([], [p.(propertyNameSpacer)])                                  (* 297 *)
